@@ -12,6 +12,7 @@ from typing import Any
 LAST: dict[str, list[Any]] = {}
 FORCED: dict[str, list[Any]] = {}
 _COUNTERS: dict[str, int] = {}
+VALUE_COUNTS: dict[str, int] = {}     # "kind=value" -> how many cases of this process ran with it (goes into the evidence)
 
 
 def new_case() -> None:
@@ -29,6 +30,7 @@ def decide(kind: str, options: tuple[Any, ...]) -> Any:
         _COUNTERS[kind] = _COUNTERS.get(kind, 0) + 1
         v = options[_COUNTERS[kind] % len(options)]
     LAST.setdefault(kind, []).append(v)
+    VALUE_COUNTS[f"{kind}={v!r}"] = VALUE_COUNTS.get(f"{kind}={v!r}", 0) + 1
     return v
 
 
